@@ -69,6 +69,11 @@ def describe_status(status):
 
 
 MODES = [('-n', ['-n'], False), ('-d', ['-d'], False), ('run', [], False), ('run -', ['-'], True), ('-d -', ['-d', '-'], True), ('-n -', ['-n', '-'], True)]
+QUICK_MODES = MODES[:4]
+
+
+def modes_for(tier):
+    return QUICK_MODES if tier == 'quick' else MODES
 
 
 def judge_rejected(tools, name, conf, dargs=(), modes=MODES, tree=None):
@@ -380,11 +385,11 @@ def macro_process_cases(tier):
     return out
 
 
-def judge_macro_process(tools, case):
+def judge_macro_process(tools, case, tier='quick'):
     name, conf, dargs, ref, exp, sc = case
     conf = conf.replace('@HELPER@', tools.helper)
     if exp == 'reject':
-        probs = judge_rejected(tools, name, conf, dargs, modes=[m for m in MODES if m[0] in ('-n', '-d', 'run', 'run -')])
+        probs = judge_rejected(tools, name, conf, dargs, modes=[m for m in MODES if m[0] in (('-n', 'run', 'run -') if tier == 'quick' else ('-n', '-d', 'run', 'run -'))])
         return {'kind': 'reject:' + name, 'config': conf, 'arguments': dargs, 'problems': probs, 'expected': 'rejected as a whole: ' + str(sc.describe())}
     ref = ref.replace('@HELPER@', tools.helper)
     probs = []
@@ -561,7 +566,7 @@ def int_process_cases(tier):
 AGE = 7200
 
 
-def judge_int_process(tools, case):
+def judge_int_process(tools, case, tier='quick'):
     lit, lx, cmp_ = case
     conf = 'maildir "%s/src" {\n\tmatch date %s %s %s move "%s/dst"\n}\n' % (R, cmp_, lit, lx, R)
     want = age_oracle(lit, lx)
@@ -652,11 +657,11 @@ def judge_shape_unit(case, impl):
     return None
 
 
-def judge_shape_process(tools, case):
+def judge_shape_process(tools, case, tier='quick'):
     name, conf, exp = case
     probs = []
     if exp == 'reject':
-        probs = judge_rejected(tools, name, conf)
+        probs = judge_rejected(tools, name, conf, modes=modes_for(tier))
         return {'kind': 'reject:' + name, 'config': conf, 'problems': probs, 'expected': 'rejected as a whole in every mode'}
     n = run_box(tools, conf, args=['-n'])
     if crashed(n['status']):
@@ -665,9 +670,9 @@ def judge_shape_process(tools, case):
         if exp == 'accept':
             probs.append('%s [-n]: a documented form is refused: %r' % (name, n['err'][-200:]))
         else:
-            probs += judge_rejected(tools, name, conf)          # refused: then as a whole, in every mode
+            probs += judge_rejected(tools, name, conf, modes=modes_for(tier))          # refused: then as a whole, in every mode
     else:
-        for label, args, has_stdin in MODES[1:]:
+        for label, args, has_stdin in modes_for(tier)[1:]:
             r = run_box(tools, conf, args=args, stdin=ws.msg(5) if has_stdin else None)
             if crashed(r['status']):
                 probs.append('%s [%s]: %s (stderr %r)' % (name, label, describe_status(r['status']), r['err'][-300:]))
@@ -675,3 +680,34 @@ def judge_shape_process(tools, case):
                 probs.append('%s [%s]: the dry run changed files: %s' % (name, label, [c[0] for c in r['changed']][:3]))
     return {'kind': exp + ':' + name, 'config': conf, 'problems': probs,
             'expected': 'accepted' if exp == 'accept' else 'accepted or rejected as a whole, never a crash', 'accepted': n['status'] == 0}
+
+
+# --------------------------------------------------------------------------
+# replay of a recorded case of one of the families
+# --------------------------------------------------------------------------
+
+def replay(j, sc):
+    """Re-run what a replay file of one of the families records: the configuration (and -D options) through the real parser and the
+    parser model, or on the real binary (-n, -d, a real run) with the age-literal / macro population.  -> handled?"""
+    import vlib
+    level = j.get('level', '')
+    if 'config' not in j or not (level.startswith('real parser') or level.startswith('real binary')):
+        return False
+    print('configuration:\n%s' % j['config'])
+    print('what was wrong: %s' % j.get('what'))
+    if level.startswith('real parser') and 'request' not in j:
+        h = sc.unit_harness('h_parse', ['parse.c'])
+        defs = [tuple(d.split('=', 1)) for d in j.get('-D options', [])]
+        line = vlib.Differential.line(conf_request(j['config'], defs))
+        print('real parser  : %s' % vlib.run_batch([h], [line], dict(vlib.ASAN_ENV, HARNESS_TMP=sc.dir))[0])
+        print('parser model : %s' % vlib.run_batch([vlib.driver_path()], ['M ' + line])[0])
+        return True
+    if level.startswith('real binary'):
+        tools = proc.Tools(sc)
+        tree = aged_tree(AGE) if 'age-literal' in j.get('kind', '') else None
+        dargs = list(j.get('arguments') or [])
+        for label, args, has_stdin in MODES[:4]:
+            r = run_box(tools, j['config'], args=dargs + args, stdin=ws.msg(5) if has_stdin else None, tree=tree)
+            print('[%s] %s; stderr %r; messages now in %s; commands run %d' % (label, describe_status(r['status']), r['err'][-300:], sorted(r['final']), len(r['helper'])))
+        return True
+    return False
